@@ -1138,16 +1138,11 @@ private:
       const bool reusable = _config.reuseConnections && !responseRequestsClose(resp) &&
                             !forceEvict && framing.mode != BodyMode::CloseDelimited &&
                             !inputPending(sessionId);
-      if (reusable)
-      {
-        // Keep the connection warm (async mode). If the mode switch fails the
-        // socket is suspect — evict rather than cache a known-bad connection.
-        if (!_transport->setReadMode(sessionId, ReadMode::Async))
-        {
-          dropConnection(hostPort, sessionId);
-        }
-      }
-      else
+      // A reusable connection waits in the cache in Sync read mode: whatever the
+      // peer sends meanwhile (e.g. a 408 before it drops the idle connection)
+      // stays in the sync buffer, where stillOpenAndQuiet() finds it. In Async
+      // mode the transport would discard it, as no onData callback is registered.
+      if (!reusable)
       {
         dropConnection(hostPort, sessionId);
       }
@@ -1164,9 +1159,8 @@ private:
 
   /// \brief True if the transport already holds input for \p sessionId that no
   /// request accounts for: bytes behind a complete response (a message that ends
-  /// exactly where a receiveSync() copy ends leaves them in the sync buffer,
-  /// where the following switch to Async would silently discard them), or the
-  /// peer's close. Zero-timeout receiveSync(): only Timeout means "nothing
+  /// exactly where a receiveSync() copy ends leaves them in the sync buffer), or
+  /// the peer's close. Zero-timeout receiveSync(): only Timeout means "nothing
   /// there"; a byte, PeerClosed or any other error makes the connection
   /// non-reusable. The session must be in Sync read mode.
   bool inputPending(SessionId sessionId) const
